@@ -24,6 +24,20 @@ def run(case, idx):
                 o = f'deactivate={int(deactivate())}'
             elif a[0] == 'enabled':
                 (deal.enable if a[1] else deal.disable)(); o = f'enabled={int(a[1])}'
+            elif a[0] == 'reimport':
+                # the source of an already imported plain module is rewritten and the module is imported afresh
+                name, src = a[1], a[2]
+                path = os.path.join(d, name + '.py')
+                with open(path, 'w') as f: f.write(src)
+                shutil.rmtree(os.path.join(d, '__pycache__'), ignore_errors=True)
+                sys.modules.pop(name, None)
+                importlib.invalidate_caches()
+                try:
+                    mod = importlib.import_module(name); r = 'ok'
+                    if 'c20_done = 1' in src and getattr(mod, 'c20_done', None) != 1: r = 'ok-but-body-not-executed'
+                except BaseException as e:
+                    r = type(e).__name__
+                o = f'reimport {name}={r} registered={int(name in sys.modules)}'
             elif a[0] == 'import_ext':
                 # a compiled extension module of the standard library, not imported yet in this process: it must be the real module
                 name = a[1]
